@@ -2,6 +2,7 @@
 """Run the registered checks against every kept seeded change (apply to /repo, check, undo) and record which
 rule keys fire.  Writes seeded/<id>/meta.json:detected_by and seeded/MATRIX.md.  Quality control only; not part of
 any registered check."""
+import glob
 import json
 import os
 import re
@@ -43,12 +44,24 @@ def main():
         json.dump(meta, open(os.path.join(sdir, "meta.json"), "w"), indent=1)
         rows.append((sid, prop, "DETECTED" if det else "missed", det))
         print(sid, "DETECTED" if det else "missed", [(d["check"], d["keys"][0][:80]) for d in det], flush=True)
-    # restore evidence of the pristine tree for the checks we touched
+    # the table always lists every kept seed (verdicts of seeds not re-run now come from their meta.json)
+    allrows = []
+    for sdir in sorted(glob.glob(os.path.join(HERE, "seeded", "C*-m*"))):
+        meta = json.load(open(os.path.join(sdir, "meta.json")))
+        det = meta.get("detected_by") or []
+        allrows.append((os.path.basename(sdir), meta.get("property"), "DETECTED" if det else "missed", det))
     with open(os.path.join(HERE, "seeded", "MATRIX.md"), "w") as f:
         f.write("# Seeded changes vs. checks\n\nEach change was written by an independent sub-agent that saw only the property text, and was confirmed by me\n(demo passes on the pristine tree, fails with the change; the 358-test suite still passes with the change).\n\n| seed | property | verdict | first reporting rule key |\n|---|---|---|---|\n")
-        for sid, prop, verdict, det in rows:
+        for sid, prop, verdict, det in allrows:
             k = "; ".join("%s: `%s`" % (d["check"], d["keys"][0][:110]) for d in det)
             f.write("| %s | %s | %s | %s |\n" % (sid, prop, verdict, k))
+    # evidence/ was rewritten while seeds were applied: re-run every claimed check on the restored tree
+    import glob
+    for ev in sorted(glob.glob(os.path.join(HERE, "evidence", "C*.json"))):
+        c = os.path.basename(ev)[:-5]
+        r = subprocess.run([os.path.join(HERE, "check"), c], cwd=HERE, capture_output=True, text=True)
+        if r.returncode != 0:
+            print("!!", c, "does not pass on the restored tree")
     print("done", len(rows))
 
 
